@@ -5,7 +5,7 @@
 From AB Require Export Spec.Preds.
 Open Scope Z_scope.
 
-Definition pred_t := config -> ghost -> world -> action -> oracle -> iobs -> list Z.
+Definition pred_t := config -> ghost -> world -> action -> oracle -> world -> iobs -> list Z.
 
 Definition uid_now (j : amap) : option bytes := uid_in j.
 
@@ -44,7 +44,7 @@ Fixpoint check_steps (n : Z) (g : ghost) (w : world) (l : list (action * oracle 
   | [] => []
   | (a, orc, i) :: r =>
       let '(w', o) := step XC cfg w a orc in
-      let viol := map (fun c => (n, c)) (pred cfg g w a orc i) in
+      let viol := map (fun c => (n, c)) (pred cfg g w a orc w' i) in
       match compare_step a w' o i with
       | [] => viol ++ check_steps (n + 1) (ghost_step cfg g w a i) w' r
       | cs => viol ++ map (fun c => (n, c)) cs
@@ -55,6 +55,25 @@ Definition check_history (l : list (action * oracle * iobs)) : list (Z * Z) :=
   check_steps 0 ghost0 empty_world l.
 End Hist.
 
-Definition no_pred : pred_t := fun _ _ _ _ _ _ => [].
+Definition no_pred : pred_t := fun _ _ _ _ _ _ _ => [].
 Definition pred_security : pred_t :=
-  fun cfg g w a O i => pred_c01 cfg g w a O i ++ pred_c02 cfg g w a O i ++ pred_c03 cfg g w a O i ++ pred_c10 cfg g w a O i.
+  fun cfg g w a O w' i =>
+    pred_c01 cfg g w a O w' i ++ pred_c02 cfg g w a O w' i ++ pred_c03 cfg g w a O w' i ++ pred_c04 g w a O w' i ++
+    pred_c05 cfg g w a O w' i ++ pred_c06 cfg g w a O w' i ++ pred_c07 cfg g w a O w' i ++ pred_c09 cfg g w a O w' i ++
+    pred_c10 cfg g w a O w' i ++ pred_c12 cfg g w a O w' i ++ pred_c13 cfg g w a O w' i ++ pred_c14 cfg g w a O w' i ++
+    pred_c19 cfg g w a O w' i.
+
+(* one selector per property (uniform type) *)
+Definition p_c01 : pred_t := pred_c01.
+Definition p_c02 : pred_t := pred_c02.
+Definition p_c03 : pred_t := pred_c03.
+Definition p_c04 : pred_t := fun _ => pred_c04.
+Definition p_c05 : pred_t := pred_c05.
+Definition p_c06 : pred_t := pred_c06.
+Definition p_c07 : pred_t := pred_c07.
+Definition p_c09 : pred_t := pred_c09.
+Definition p_c10 : pred_t := pred_c10.
+Definition p_c12 : pred_t := pred_c12.
+Definition p_c13 : pred_t := pred_c13.
+Definition p_c14 : pred_t := pred_c14.
+Definition p_c19 : pred_t := pred_c19.
